@@ -190,6 +190,31 @@ def stepDoc (m : List (String × String)) (impl : String) : String × String :=
     (mo, if impl.startsWith "MALFORMED" then "viol:malformed-decode-result" else "ok")
   | _, _, _, _, _, _ => ("bad-op", "ok")
 
+/-- several messages coalesced in one buffer: the adapter decodes ONE message per call and reports exactly the bytes of that
+    message (plus the whitespace before it) as consumed; the gateway advances and calls again -/
+def stepMulti (m : List (String × String)) (impl : String) : String × String :=
+  let sepLen : Option Nat := match look m "sep" with
+    | some "none" => some 0 | some "sp" => some 1 | some "nl" => some 1 | some "crlf" => some 2 | _ => none
+  match sepLen, (look m "trail"), (look m "cut").bind String.toInt?, look m "m" with
+  | some sl, some trail, some cut, some ms =>
+    let parts := (ms.splitOn ",").map (fun p => p.splitOn ":")
+    let parsed : List (Option (String × String × Nat)) := parts.map fun q =>
+      match q with
+      | [_, kind, rid, len] => len.toNat?.map (fun l => (kind, rid, l))
+      | _ => none
+    if parsed.any Option.isNone || parsed.isEmpty then ("bad-op", "ok") else
+    let msgs := parsed.filterMap id
+    let full := if cut ≥ 0 then msgs.dropLast else msgs
+    let items := (List.range full.length).zip full |>.map fun (i, (kind, rid, len)) =>
+      s!"{kind}:{rid}:{if i = 0 then len else sl + len}"
+    let rest : Nat :=
+      if cut ≥ 0 then (if msgs.length > 1 then sl else 0) + cut.toNat
+      else if trail == "1" then sl else 0
+    let one := s!"[{"|".intercalate items}] rest={rest}"
+    let mo := s!"j={one} w={one}"
+    (mo, if impl == mo then "ok" else "viol:coalesced-messages:" ++ firstDiff impl mo)
+  | _, _, _, _ => ("bad-op", "ok")
+
 def step (_ : Unit) (op impl : String) : Unit × String × String :=
   let r : String × String :=
     match fields op with
@@ -197,6 +222,7 @@ def step (_ : Unit) (op impl : String) : Unit × String × String :=
     | "in" :: rest => stepIn (kv rest) impl
     | "det" :: rest => stepDet (kv rest) impl
     | "doc" :: rest => stepDoc (kv rest) impl
+    | "multi" :: rest => stepMulti (kv rest) impl
     | ["fuzz", h] =>
       match hexDecode h with
       | none => ("bad-op", "ok")
